@@ -696,6 +696,8 @@ def _ops():
     op('distance_bin', 'wd', lambda b, A, a: {'D': b.distance_bin(A)})
     op('efficiency_bin', 'wd', lambda b, A, a: {'E': b.efficiency_bin(A.copy())}, inexact=('E',))
     op('reachdist', 'wd', lambda b, A, a: dict(zip(('R', 'D'), b.reachdist(A.copy()))))
+    # the exact series sum_k (A^k)_ii / k! (40 terms) against the eigen-decomposition based routine
+    op('subgraph_series', 'bu', lambda b, A, a: {'Cs': b.subgraph_centrality(A)}, args=((40,),), fmt=lambda a: ' K=%d' % a[0], inexact=('Cs',))
     return O
 
 
